@@ -82,7 +82,7 @@ found:
 					v = args[n]
 				}
 			default:
-				v = E.resolveNameAt(fr, st, blk, idx, pn)
+				v = E.resolveParam(fr, st, blk, idx, p, ca.fn.Params)
 			}
 			if v == nil {
 				E.fail("call-assert %s: cannot resolve %q at the call of %s in %s", ca.label, pn, name, fr.fn)
